@@ -188,6 +188,42 @@ func concurrent(rec *hx.Recorder) {
 	}
 }
 
+// otherArch runs the same value checks in the test binary built for a 32-bit
+// architecture (the driver builds it and names it in VERIF_C20_ARCH386): what
+// a value prints as does not depend on the size of int.
+func otherArch(rec *hx.Recorder) {
+	bin := os.Getenv("VERIF_C20_ARCH386")
+	if bin == "" {
+		rec.Note("arch-386: no GOARCH=386 build of this check available, sub-check not run")
+		return
+	}
+	cmd := exec.Command(bin)
+	cmd.Env = append(os.Environ(), "VERIF_C20_WORKER=1", "VERIF_OUT=")
+	var out, errb bytes.Buffer
+	cmd.Stdout, cmd.Stderr = &out, &errb
+	err := cmd.Run()
+	n := int64(0)
+	for i := range genTypes {
+		if len(genTypes[i].Consts) > 0 {
+			n += int64(len(probeValues(&genTypes[i])))
+		}
+	}
+	switch {
+	case err == nil && strings.Contains(out.String(), "CONCURRENT-OK"):
+		rec.Eval("arch-386", n)
+	case strings.Contains(out.String(), "MISMATCH "):
+		rec.Eval("arch-386", n)
+		rec.Fail("arch-386", "", "compiled for GOARCH=386: "+firstLine(out.String()[strings.Index(out.String(), "MISMATCH ")+9:]), strCase{"(arch-386)", 0})
+	case strings.Contains(errb.String(), "fatal error:") || strings.Contains(errb.String(), "panic:"):
+		rec.Eval("arch-386", n)
+		rec.Fail("arch-386", "", "compiled for GOARCH=386 the String methods crash: "+firstLine(errb.String()), strCase{"(arch-386)", 0})
+	default:
+		// the sandbox cannot run 32-bit binaries, or the child died for
+		// another reason: not a verdict
+		rec.Note(fmt.Sprintf("arch-386: child ended with %v and no verdict: %s", err, firstLine(errb.String())))
+	}
+}
+
 func firstLine(s string) string {
 	if i := strings.Index(s, "fatal error:"); i > 0 {
 		s = s[i:]
@@ -212,6 +248,8 @@ func TestC20(t *testing.T) {
 				regenerate(rec)
 			} else if c.Type == "(concurrent)" {
 				concurrent(rec)
+			} else if c.Type == "(arch-386)" {
+				otherArch(rec)
 			}
 			return
 		}
@@ -290,6 +328,7 @@ func TestC20(t *testing.T) {
 
 		regenerate(rec)
 		concurrent(rec)
+		otherArch(rec)
 	})
 }
 
